@@ -124,8 +124,10 @@ class CParser:
         self._scope_stack.append(dict())
 
     def _pop_scope(self) -> None:
-        assert len(self._scope_stack) > 1
-        self._scope_stack.pop()
+        # A '}' without a matching '{' must not pop the file scope; the grammar
+        # rejects the stray brace with a ParseError when it gets there.
+        if len(self._scope_stack) > 1:
+            self._scope_stack.pop()
 
     def _add_typedef_name(self, name: str, coord: Optional[Coord]) -> None:
         """Add a new typedef name (ie a TYPEID) to the current scope"""
